@@ -720,8 +720,40 @@ def run_burst(case):
                 'deviation': 'none', 'link': 0}
         h = Hier(spec, 'B', store)
         checker = Checker(compile_lvs(L.render(schema_ast(case['depth'], True, False), 0)), {})
-        v = sim.vl.call(lvs_validator, checker, sim.app, h.anchor_wire)
+        # the key cache is the caller's choice: the default one, one that keeps nothing, or one that forgets now and then
+        from ndn.security.validator.cascade_validator import EmptyKeyStorage, MemoryKeyStorage
+
+        class _Forgetful(MemoryKeyStorage):
+            n = 0
+
+            def load(self, name):
+                self.n += 1
+                return None if self.n % 3 == 0 else super().load(name)
+        storage = {'default': None, 'empty': EmptyKeyStorage(), 'forgetful': _Forgetful()}[case.get('storage', 'default')]
+        v = sim.vl.call(lambda: lvs_validator(checker, sim.app, h.anchor_wire, storage) if storage is not None
+                        else lvs_validator(checker, sim.app, h.anchor_wire))
         wires = [h.data_packet(IDS[0], i)[1] for i in range(case['k'])]
+        if case.get('abandon'):
+            # the caller gives up on a validation while a certificate is being fetched (its own deadline), and asks again later in
+            # the SAME task: the second attempt is judged on its own
+            name0, _mi, _c, sig0 = parse_data(wires[0])
+            box = {}
+
+            async def twice():
+                try:
+                    await asyncio.wait_for(v(name0, sig0), max(case['latency_ms'], 2) / 2000)
+                    box['first'] = 'finished'
+                except Exception as e_:      # TimeoutError, or the library's InterestCanceled coming out of the cancelled fetch
+                    box['first'] = f'abandoned ({type(e_).__name__})'
+                await asyncio.sleep(0.5)
+                box['second'] = bool(await v(name0, sig0))
+            t = sim.vl.run(_spawn(twice()))
+            if not _wait_done(sim, [t], r, 'abandon/'):
+                return r
+            if t.exception() is not None:
+                return r.bad(f'C14/burst/retry-after-abandoned-attempt/raised/{type(t.exception()).__name__}', repr(t.exception())[:200])
+            if box.get('second') is not True:
+                return r.bad('C14/burst/rejects-valid-chain/retry-after-abandoned-attempt', f'first attempt {box.get("first")}, second verdict {box.get("second")}')
         for rnd in range(2):
             got = _validate_many(sim, v, wires, r)
             if got is None:
@@ -736,15 +768,17 @@ def run_burst(case):
                 raise
         finally:
             sim.close()
-    r.key = (case['k'], case['depth'], case['latency_ms'])
-    r.classes = (f'burst:{case["k"]}', f'depth:{case["depth"]}')
+    r.key = (case['k'], case['depth'], case['latency_ms'], case.get('storage'), bool(case.get('abandon')))
+    r.classes = (f'burst:{case["k"]}', f'depth:{case["depth"]}', f'storage:{case.get("storage", "default")}') + \
+        (('abandoned-attempt',) if case.get('abandon') else ())
     return r
 
 
 def _burst_case():
     ecrsa = [k for k in KEYPOOL if K.KEYS[k]['kind'] in ('ec', 'rsa')]
     return st.fixed_dictionaries({'k': st.sampled_from([40, 20, 12, 8, 17, 33, 64]), 'depth': st.sampled_from([4, 3, 2]),
-                                  'latency_ms': st.sampled_from([0, 1, 10]),
+                                  'latency_ms': st.sampled_from([0, 1, 10]), 'storage': st.sampled_from(['default', 'empty', 'forgetful']),
+                                  'abandon': st.booleans(),
                                   'keys': st.lists(st.sampled_from(ecrsa), min_size=5, max_size=5)})
 
 
@@ -757,7 +791,7 @@ SUBCHECKS = {
     'many-certificates': SubCheck(run_many, strategy=lambda tier: _many_case(), examples={'quick': 16, 'thorough': 80},
                                   note='one validator instance validates packets of 33..130 users (one certificate each), then the '
                                        'first users again and a cross-signed forgery'),
-    'burst': SubCheck(run_burst, strategy=lambda tier: _burst_case(), examples={'quick': 16, 'thorough': 200},
+    'burst': SubCheck(run_burst, strategy=lambda tier: _burst_case(), examples={'quick': 32, 'thorough': 300},
                       note='8..64 valid packets validated at the same time by one cold instance, chains of depth 2..4'),
     'histories': SubCheck(run_case, strategy=lambda tier: _case(), examples={'quick': 500, 'thorough': 10000}),
 }
